@@ -1164,3 +1164,228 @@ Proof.
   split; [exact H5|]. split; [exact H6|]. split; [|exact H8].
   apply H7. apply (TextFacts.model_newlines_unbordered _ _ _ Hg).
 Qed.
+
+(* ================================================================================================ *)
+(** * 7. Metadata: json.dumps(indent=4, separators=(',', ': '), sort_keys=True), ASCII only *)
+
+Lemma join_items_join : forall sep l, join_items sep l = join sep l.
+Proof. intros sep. induction l as [|x t IH]; [reflexivity|]. destruct t; [reflexivity|]. cbn [join_items join] in *. rewrite IH. reflexivity. Qed.
+
+(* the members / items of one level, each dumped one level deeper, in the dict's own order *)
+Fixpoint dump_members (lvl : nat) (l : list (text * json)) : res (list (text * bytes)) :=
+  match l with
+  | [] => Ok []
+  | (k, v) :: t => do a <- dump (S lvl) v; do b <- dump_members lvl t; Ok ((k, a) :: b)
+  end.
+Fixpoint dump_items (lvl : nat) (l : list json) : res (list bytes) :=
+  match l with
+  | [] => Ok []
+  | x :: t => do a <- dump (S lvl) x; do b <- dump_items lvl t; Ok (a :: b)
+  end.
+Definition render_member (p : text * bytes) : bytes := dump_str (fst p) ++ B ": " ++ snd p.
+
+(* one level of an object: "{", newline + indent, the members SORTED BY KEY joined by "," newline indent,
+   newline + outer indent, "}" *)
+Theorem dump_obj : forall lvl kv, kv <> [] ->
+  dump lvl (JObj kv) =
+  match dump_members lvl kv with
+  | Ok body => Ok (B "{" ++ nl_indent (S lvl)
+                     ++ join (B "," ++ nl_indent (S lvl)) (map render_member (sort_kb body))
+                     ++ nl_indent lvl ++ B "}")
+  | Err e => Err e
+  end.
+Proof.
+  intros lvl kv Hne. destruct kv as [|p kv']; [congruence|].
+  assert (Hitems : forall l,
+    (fix items (l : list (text * json)) : res (list (text * bytes)) :=
+       match l with
+       | [] => Ok []
+       | (k, v) :: t => do a <- dump (S lvl) v; do b <- items t; Ok ((k, a) :: b)
+       end) l = dump_members lvl l).
+  { induction l as [|[k v] t IH]; [reflexivity|]. cbn [dump_members]. rewrite <- IH. reflexivity. }
+  rewrite <- Hitems.
+  match goal with |- _ = match ?X with _ => _ end => destruct X as [body|e] eqn:E end.
+  - cbn [dump]. rewrite E. cbn [bind]. rewrite join_items_join. reflexivity.
+  - cbn [dump]. rewrite E. reflexivity.
+Qed.
+
+Theorem dump_list : forall lvl l, l <> [] ->
+  dump lvl (JList l) =
+  match dump_items lvl l with
+  | Ok body => Ok (B "[" ++ nl_indent (S lvl) ++ join (B "," ++ nl_indent (S lvl)) body ++ nl_indent lvl ++ B "]")
+  | Err e => Err e
+  end.
+Proof.
+  intros lvl l Hne. destruct l as [|p l']; [congruence|].
+  assert (Hitems : forall l,
+    (fix items (l : list json) : res (list bytes) :=
+       match l with
+       | [] => Ok []
+       | x :: t => do a <- dump (S lvl) x; do b <- items t; Ok (a :: b)
+       end) l = dump_items lvl l).
+  { induction l as [|x t IH]; [reflexivity|]. cbn [dump_items]. rewrite <- IH. reflexivity. }
+  rewrite <- Hitems.
+  match goal with |- _ = match ?X with _ => _ end => destruct X as [body|e] eqn:E end.
+  - cbn [dump]. rewrite E. cbn [bind]. rewrite join_items_join. reflexivity.
+  - cbn [dump]. rewrite E. reflexivity.
+Qed.
+
+Lemma dump_members_spec : forall lvl l body, dump_members lvl l = Ok body ->
+  Forall2 (fun kv kb => fst kb = fst kv /\ dump (S lvl) (snd kv) = Ok (snd kb)) l body.
+Proof.
+  induction l as [|[k v] t IH]; intros body H; cbn [dump_members] in H.
+  - inversion H. constructor.
+  - step_bind H. step_bind H. inversion H; subst. constructor; [split; [reflexivity|exact E]|apply IH; reflexivity].
+Qed.
+
+Lemma dump_items_spec : forall lvl l body, dump_items lvl l = Ok body ->
+  Forall2 (fun x b => dump (S lvl) x = Ok b) l body.
+Proof.
+  induction l as [|x t IH]; intros body H; cbn [dump_items] in H.
+  - inversion H. constructor.
+  - step_bind H. step_bind H. inversion H; subst. constructor; [exact E|apply IH; reflexivity].
+Qed.
+
+(* metadata is a JSON object whose keys are emitted in ascending code-point order, 4 spaces per level *)
+Theorem C02_json_sorted : forall kv d, kv <> [] -> json_dump (JObj kv) = Ok d ->
+  exists body,
+    Forall2 (fun kv kb => fst kb = fst kv /\ dump 1 (snd kv) = Ok (snd kb)) kv body /\
+    StronglySorted tkey_le (sort_kb body) /\ Permutation body (sort_kb body) /\
+    d = B "{" ++ nl_indent 1 ++ join (B "," ++ nl_indent 1) (map render_member (sort_kb body)) ++ nl_indent 0 ++ B "}".
+Proof.
+  intros kv d Hne H. unfold json_dump in H. rewrite dump_obj in H by assumption.
+  destruct (dump_members 0 kv) as [body|e] eqn:E; [|discriminate H]. inversion H; subst d.
+  exists body. split; [apply dump_members_spec; exact E|]. split; [apply sort_kb_sorted|].
+  split; [apply sort_kb_perm|reflexivity].
+Qed.
+
+(* an induction principle for the nested type *)
+Section JsonInd.
+  Variable P : json -> Prop.
+  Hypothesis HNull : P JNull.
+  Hypothesis HBool : forall b, P (JBool b).
+  Hypothesis HInt : forall z, P (JInt z).
+  Hypothesis HFloat : forall r, P (JFloat r).
+  Hypothesis HStr : forall s, P (JStr s).
+  Hypothesis HList : forall l, Forall P l -> P (JList l).
+  Hypothesis HObj : forall kv, Forall (fun p => P (snd p)) kv -> P (JObj kv).
+  Hypothesis HBad : P JBad.
+  Fixpoint json_ind' (j : json) : P j :=
+    match j with
+    | JNull => HNull
+    | JBool b => HBool b
+    | JInt z => HInt z
+    | JFloat r => HFloat r
+    | JStr s => HStr s
+    | JList l =>
+        HList l ((fix go (l : list json) : Forall P l :=
+                    match l with
+                    | [] => Forall_nil P
+                    | x :: t => @Forall_cons _ P x t (json_ind' x) (go t)
+                    end) l)
+    | JObj kv =>
+        HObj kv ((fix go (l : list (text * json)) : Forall (fun p => P (snd p)) l :=
+                    match l with
+                    | [] => Forall_nil _
+                    | (k, v) :: t => @Forall_cons _ (fun p => P (snd p)) (k, v) t (json_ind' v) (go t)
+                    end) kv)
+    | JBad => HBad
+    end.
+End JsonInd.
+
+(* float reprs are opaque to the model: they are ASCII in CPython; this is the only premise *)
+Inductive floats_ascii : json -> Prop :=
+| FA_null : floats_ascii JNull
+| FA_bool b : floats_ascii (JBool b)
+| FA_int z : floats_ascii (JInt z)
+| FA_float r : Forall ascii_byte r -> floats_ascii (JFloat r)
+| FA_str s : floats_ascii (JStr s)
+| FA_list l : Forall floats_ascii l -> floats_ascii (JList l)
+| FA_obj kv : Forall (fun p => floats_ascii (snd p)) kv -> floats_ascii (JObj kv)
+| FA_bad : floats_ascii JBad.
+
+Lemma ascii_B : forall s, forallb (fun b => N.ltb (byte_n b) 128) (B s) = true -> Forall ascii_byte (B s).
+Proof. intros s H. rewrite forallb_forall in H. apply Forall_forall. intros x Hx. apply N.ltb_lt. auto. Qed.
+
+Lemma hex_digit_ascii : forall n, (n < 16)%N -> ascii_byte (hex_digit n).
+Proof.
+  intros n H. unfold hex_digit, ascii_byte. destruct (N.ltb n 10) eqn:E; rewrite byte_n_n_byte; lia.
+Qed.
+
+Lemma u_escape_ascii : forall c, Forall ascii_byte (u_escape c).
+Proof.
+  intros c. unfold u_escape. apply Forall_app. split; [apply ascii_B; reflexivity|].
+  repeat constructor; apply hex_digit_ascii; apply N.mod_lt; discriminate.
+Qed.
+
+Lemma esc_cp_ascii : forall c, Forall ascii_byte (esc_cp c).
+Proof.
+  intros c. unfold esc_cp.
+  repeat match goal with |- Forall _ (if ?b then _ else _) => destruct b eqn:? end;
+    try (apply ascii_B; reflexivity); try apply u_escape_ascii.
+  - constructor; [|constructor]. unfold ascii_byte. rewrite byte_n_n_byte; lia.
+  - apply Forall_app. split; apply u_escape_ascii.
+Qed.
+
+Lemma dump_str_ascii : forall s, Forall ascii_byte (dump_str s).
+Proof.
+  intros s. unfold dump_str. apply Forall_app. split; [apply ascii_B; reflexivity|].
+  apply Forall_app. split; [|apply ascii_B; reflexivity].
+  induction s as [|c s IH]; [constructor|]. cbn [flat_map]. apply Forall_app. split; [apply esc_cp_ascii|exact IH].
+Qed.
+
+Lemma repeat_b_Forall : forall (P : byte -> Prop) b n, P b -> Forall P (repeat_b b n).
+Proof. intros P b n H. induction n; cbn [repeat_b]; constructor; assumption. Qed.
+
+Lemma nl_indent_ascii : forall lvl, Forall ascii_byte (nl_indent lvl).
+Proof.
+  intros. unfold nl_indent. apply Forall_app. split.
+  - constructor; [vm_compute; reflexivity|constructor].
+  - apply repeat_b_Forall. vm_compute. reflexivity.
+Qed.
+
+Lemma Z_to_dec_ascii : forall z, Forall ascii_byte (Z_to_dec z).
+Proof. intros z. apply spec_val_ascii. apply Z_to_dec_spec_val. Qed.
+
+Lemma Ok_inj {A} : forall a b : A, Ok a = Ok b -> a = b.
+Proof. intros a b H. congruence. Qed.
+
+Lemma Forall_app5 {A} (P : A -> Prop) : forall a b c d e,
+  Forall P a -> Forall P b -> Forall P c -> Forall P d -> Forall P e -> Forall P (a ++ b ++ c ++ d ++ e).
+Proof. intros. repeat (apply Forall_app; split); assumption. Qed.
+
+Theorem dump_ascii : forall j lvl d, floats_ascii j -> dump lvl j = Ok d -> Forall ascii_byte d.
+Proof.
+  induction j as [|b|z|r|s|l IHl|kv IHkv|] using json_ind'; intros lvl d Hf H.
+  - inversion H. apply ascii_B. reflexivity.
+  - destruct b; inversion H; apply ascii_B; reflexivity.
+  - inversion H. apply Z_to_dec_ascii.
+  - inversion H; subst. inversion Hf. assumption.
+  - inversion H. apply dump_str_ascii.
+  - destruct l as [|x l']; [inversion H; apply ascii_B; reflexivity|].
+    rewrite dump_list in H by discriminate.
+    destruct (dump_items lvl (x :: l')) as [body|e] eqn:E; [|discriminate H]. apply Ok_inj in H. subst d.
+    assert (Hbody : Forall (Forall ascii_byte) body).
+    { apply dump_items_spec in E. inversion Hf as [| | | | |? Hfl| |]; subst. clear Hf.
+      revert IHl Hfl. induction E as [|y b t bt Hy E IH]; intros IHl Hfl; [constructor|].
+      inversion IHl; subst. inversion Hfl; subst. constructor; [eauto|apply IH; assumption]. }
+    apply Forall_app5; try (apply ascii_B; reflexivity); try apply nl_indent_ascii.
+    apply Forall_join; [|exact Hbody]. apply Forall_app. split; [apply ascii_B; reflexivity|apply nl_indent_ascii].
+  - destruct kv as [|p kv']; [inversion H; apply ascii_B; reflexivity|].
+    rewrite dump_obj in H by discriminate.
+    destruct (dump_members lvl (p :: kv')) as [body|e] eqn:E; [|discriminate H]. apply Ok_inj in H. subst d.
+    assert (Hbody : Forall (fun kb => Forall ascii_byte (snd kb)) body).
+    { apply dump_members_spec in E. inversion Hf as [| | | | | |? Hfl|]; subst. clear Hf.
+      revert IHkv Hfl. induction E as [|y b t bt [_ Hy] E IH]; intros IHkv Hfl; [constructor|].
+      inversion IHkv; subst. inversion Hfl; subst. constructor; [eauto|apply IH; assumption]. }
+    apply Forall_app5; try (apply ascii_B; reflexivity); try apply nl_indent_ascii.
+    apply Forall_join; [apply Forall_app; split; [apply ascii_B; reflexivity|apply nl_indent_ascii]|].
+    apply Forall_forall. intros m Hm. apply in_map_iff in Hm. destruct Hm as (kb & <- & Hkb).
+    apply (Permutation_in _ (Permutation_sym (sort_kb_perm body))) in Hkb.
+    unfold render_member. apply Forall_app. split; [apply dump_str_ascii|].
+    apply Forall_app. split; [apply ascii_B; reflexivity|]. rewrite Forall_forall in Hbody. apply Hbody. exact Hkb.
+  - discriminate H.
+Qed.
+
+Theorem C02_json_ascii : forall j d, floats_ascii j -> json_dump j = Ok d -> Forall ascii_byte d.
+Proof. intros j d. apply dump_ascii. Qed.
